@@ -30,8 +30,8 @@ ASSUMPTIONS = [
 
 def budget(tier):
     if tier == 'thorough':
-        return {'seeds': 60000, 'wall': 840, 'chunk': 200}
-    return {'seeds': 10000, 'wall': 150, 'chunk': 50}
+        return {'seeds': 180000, 'wall': 900, 'chunk': 100}
+    return {'seeds': 12000, 'wall': 200, 'chunk': 50}
 
 
 def _gen_call(ctx, rng, depth=0):
